@@ -124,8 +124,31 @@ def s_line_col(run: Run, recv: Ref, args, kwargs):
     return (wrap(1 + cnt(p), "int"), wrap(p - lastnl(p), "int"))
 
 
+rstrip_fn = z3.Function("py_rstrip", z3.StringSort(), z3.StringSort())
+
+
+def s_error_context(run: Run, recv, args, kwargs):
+    """call-site contract of pest.exceptions.error_context (proved in C13): (rstrip(line of p), 1 + cnt(p), p - lastnl(p)),
+    and ("", N + 1, 1) on a new empty line at the end.  rstrip is opaque: only |rstrip(x)| <= |x| and prefix-ness are known."""
+    text, p = args[0], z(args[1], "int")
+    run.oblige("error_context.requires", z3.And(z3.BoolVal(isinstance(text, Sym) and text.t.eq(T)), 0 <= p, p <= z3.Length(T)))
+    for f in [*cnt_unfold(p), *split_facts(cnt(p)), bridge_in_line(cnt(p), p), bridge_at_end(p)]:
+        run.assume(f)
+    run.assume(z3.Implies(p < z3.Length(T), z3.And(0 <= cnt(p), cnt(p) < N, off(cnt(p)) <= p, p < off(cnt(p) + 1))), "BRIDGE: p < |T| lies in line cnt(p)")
+    term = z3.Or(N == 0, z3.SuffixOf(NL, T))
+    at_new = z3.And(p == z3.Length(T), term)
+    ln = LNS[cnt(p)]
+    r = rstrip_fn(ln)
+    run.assume(z3.And(z3.PrefixOf(r, ln), z3.Length(r) <= z3.Length(ln)), "str.rstrip returns a prefix")
+    return (Sym(z3.If(at_new, z3.StringVal(""), r), "str"), wrap(1 + cnt(p), "int"), wrap(p - lastnl(p), "int"))
+
+
+COMMON_SUMMARIES = {"pest.exceptions.error_context": s_error_context}
+
+
 class LineCol(TextSpec):
     target = f"{POSITION}.line_col"
+    summaries = COMMON_SUMMARIES
 
     def setup(self, run: Run):
         me, p = self.mk_position(run)
@@ -164,7 +187,7 @@ class LineCol(TextSpec):
 
 class LineOf(TextSpec):
     target = f"{POSITION}.line_of"
-    summaries = {f"{POSITION}.line_col": s_line_col}
+    summaries = {f"{POSITION}.line_col": s_line_col, **COMMON_SUMMARIES}
 
     def setup(self, run: Run):
         me, p = self.mk_position(run)
@@ -310,7 +333,7 @@ def _spec_py(text: str, p: int):
     return 1 + before.count("\n"), p - before.rfind("\n")
 
 
-def bounded_check(max_len: int = 7) -> dict:
+def bounded_check(max_len: int = 7, alphabet: str = "ab\n") -> dict:
     import itertools
 
     from pest.pairs import Position, Span
@@ -318,7 +341,7 @@ def bounded_check(max_len: int = 7) -> dict:
     bad = []
     n = 0
     for ln in range(max_len + 1):
-        for tup in itertools.product("ab\n", repeat=ln):
+        for tup in itertools.product(alphabet, repeat=ln):
             text = "".join(tup)
             lines = text.splitlines(keepends=True)
             # BRIDGE validation
@@ -358,11 +381,16 @@ def bounded_check(max_len: int = 7) -> dict:
 
 
 def extra_checks(tier, seed):
-    return [bounded_check(7 if tier == "quick" else 9)]
+    a = bounded_check(7 if tier == "quick" else 9)
+    b = bounded_check(6 if tier == "quick" else 7, "a \t\n")
+    b["name"] += "-blanks"
+    return [a, b]
 
 
 def concretise(tier, seed, refuted, undecided, known):
     r = bounded_check(6)
+    if not r["details"]:
+        r = bounded_check(6, "a \t\n")
     out = []
     for d in r["details"][:1]:
         out.append({"found": True, "for": None, "input": d, "observed": d.get("got"),
